@@ -129,7 +129,11 @@ pub fn panic_catcher_set_hook() {
     if PANIC_CATCHER_HOOK_SET.load(Ordering::SeqCst) {
         return;
     }
+    #[cfg(cloudflare_wirefilter_verif)]
+    crate::verif_hooks::pause_point(crate::verif_hooks::PAUSE_SET_HOOK_DECIDED);
     let next = std::panic::take_hook();
+    #[cfg(cloudflare_wirefilter_verif)]
+    crate::verif_hooks::pause_point(crate::verif_hooks::PAUSE_SET_HOOK_TAKEN);
     std::panic::set_hook(Box::new(move |info| {
         if PANIC_CATCHER_LEVEL.with(|enabled| enabled.get() > 0) {
             PANIC_CATCHER_BACKTRACE.with(|bt| {
